@@ -130,6 +130,59 @@ pub(crate) mod verif_dev {
         }
     }
 
+    /// A device whose TxToken carries NO pointer: frames are captured in a static.  A token holding
+    /// `&mut TxState` that travels through the `Option` returned by `Device::transmit()` costs CBMC its
+    /// points-to precision (measured: `Interface::socket_egress` out of memory at 8 GB with `CapDev`,
+    /// 40 s with this one).  Single-threaded harnesses only.
+    #[allow(unsafe_code)]
+    pub(crate) mod gdev {
+        use super::*;
+        pub(crate) const GN: usize = 128;
+        pub(crate) static mut G: TxState<GN> = TxState { frames: 0, len0: 0, len1: 0, buf0: [0; GN], buf1: [0; GN] };
+        pub(crate) struct GTx;
+        impl TxToken for GTx {
+            fn consume<R, F: FnOnce(&mut [u8]) -> R>(self, len: usize, f: F) -> R {
+                let st: &mut TxState<GN> = unsafe { &mut *core::ptr::addr_of_mut!(G) };
+                let r;
+                if st.frames == 0 {
+                    st.len0 = len;
+                    r = f(&mut st.buf0[..len]);
+                } else {
+                    st.len1 = len;
+                    r = f(&mut st.buf1[..len]);
+                }
+                st.frames += 1;
+                r
+            }
+        }
+        pub(crate) fn captured() -> &'static TxState<GN> {
+            unsafe { &*core::ptr::addr_of!(G) }
+        }
+        pub(crate) struct GDev {
+            pub(crate) medium: Medium,
+            pub(crate) mtu: usize,
+            pub(crate) checksum: ChecksumCapabilities,
+            pub(crate) tx_ok: bool,
+        }
+        impl Device for GDev {
+            type RxToken<'a> = NoRx;
+            type TxToken<'a> = GTx;
+            fn capabilities(&self) -> DeviceCapabilities {
+                let mut c = DeviceCapabilities::default();
+                c.medium = self.medium;
+                c.max_transmission_unit = self.mtu;
+                c.checksum = self.checksum.clone();
+                c
+            }
+            fn receive(&mut self, _t: Instant) -> Option<(NoRx, GTx)> {
+                None
+            }
+            fn transmit(&mut self, _t: Instant) -> Option<GTx> {
+                if self.tx_ok { Some(GTx) } else { None }
+            }
+        }
+    }
+
     impl Device for NullDev {
         type RxToken<'a> = NoRx;
         type TxToken<'a> = NoTx;
